@@ -125,6 +125,87 @@ fn judge_discoveries_symmetric(case: &Case, g: &GraphData, tag: &str, cfg: &RunC
     }
 }
 
+/// Two routes of different length from the initial state to a join, the short one through the
+/// only state that satisfies an eventually-property, and a terminal tail behind the join. The
+/// long route is a genuine counterexample; a witness assembled from whichever route reached the
+/// join *last* (or shortest) would pass through the satisfying state. The on-demand checker is
+/// asked to walk the long route first; BFS and DFS run on the same graphs.
+fn unequal_routes_case(case: &mut Case) {
+    let long = case.rng.range(2, 5);
+    let short = case.rng.range(1, long - 1);
+    let tail = case.rng.range(0, 3);
+    let noise = case.rng.below(4);
+    let n = 1 + long + short + 1 + tail + noise;
+    let mut g = GraphData::new(n);
+    g.inits = vec![0];
+    let long_arm: Vec<u32> = (1..=long as u32).collect();
+    let short_arm: Vec<u32> = (long as u32 + 1..=(long + short) as u32).collect();
+    let join = (long + short + 1) as u32;
+    let tail_nodes: Vec<u32> = (join + 1..=join + tail as u32).collect();
+    let chain = |g: &mut GraphData, nodes: &[u32], from: u32, to: u32| {
+        let mut prev = from;
+        for x in nodes {
+            g.out[prev as usize].push(Some(*x));
+            prev = *x;
+        }
+        g.out[prev as usize].push(Some(to));
+    };
+    // action order at the initial state is random (which arm is "first" must not matter)
+    if case.rng.pct(50) {
+        chain(&mut g, &long_arm, 0, join);
+        chain(&mut g, &short_arm, 0, join);
+    } else {
+        chain(&mut g, &short_arm, 0, join);
+        chain(&mut g, &long_arm, 0, join);
+    }
+    let mut prev = join;
+    for x in &tail_nodes {
+        g.out[prev as usize].push(Some(*x));
+        prev = *x;
+    }
+    // noise: dead-end states hanging off the long arm
+    for k in 0..noise {
+        let x = (join as usize + tail + 1 + k) as u32;
+        let from = long_arm[case.rng.below(long_arm.len())];
+        g.out[from as usize].push(Some(x));
+    }
+    let reach = g.reach();
+    // eventually: true only at one state of the short arm
+    let sat = *case.rng.pick(&short_arm);
+    let mut l = vec![false; n];
+    l[sat as usize] = true;
+    g.labels.push(l);
+    g.props.push((Expectation::Eventually, 0));
+    // something that stays open, so that checking goes on after the first discovery
+    g.labels.push(vec![true; n]);
+    g.props.push((Expectation::Always, 1));
+    if case.rng.pct(50) {
+        g.labels.push(vec![false; n]);
+        g.props.push((Expectation::Sometimes, 2));
+    }
+    let _ = reach;
+    case.distinct(g.structural_hash(), true);
+    let model = GraphModel(Arc::new(g));
+    case.sample(|| model.summary());
+    // on-demand: the long arm, the join and the tail first, then everything else
+    let mut order: Vec<u32> = vec![0];
+    order.extend(&long_arm);
+    order.push(join);
+    order.extend(&tail_nodes);
+    let threads = *case.rng.pick(&[1usize, 1, 2]);
+    let cfg = RunCfg { threads, visitor: 0, ..RunCfg::default() };
+    let mut rq = case.rng.fork();
+    let out = run_on_demand_requests(&model, &cfg, &mut rq, order.len(), Some(&order), false);
+    case.add("runs_on_demand_long_route_first", 1);
+    judge_discoveries(case, &model, "on_demand", &cfg, &out, false);
+    for strategy in [Strategy::Bfs, Strategy::Dfs, Strategy::OnDemand] {
+        let cfg = RunCfg { threads: *case.rng.pick(&[1usize, 2, 4]), visitor: 0, ..RunCfg::default() };
+        let out = run_checker(&model, strategy, &cfg, false);
+        case.add(&format!("runs_unequal_routes_{}", strategy.name()), 1);
+        judge_discoveries(case, &model, strategy.name(), &cfg, &out, false);
+    }
+}
+
 /// Runs that are cut short by a timeout (worker subprocesses shared with C12): whatever they
 /// report for an eventually-property that no state satisfies must still be a maximal path. The
 /// chain model has no maximal finite path at all, the tree's only ones end in its leaves.
@@ -292,5 +373,6 @@ pub fn run(ctx: &mut Ctx) {
             judge_discoveries_symmetric(case, &model, "simulation_symmetry", &cfg, &out);
         }
     });
+    ctx.cases("unequal_routes", ctx.n(400, 8000), 0, unequal_routes_case);
     interrupted_runs(ctx);
 }
